@@ -204,6 +204,37 @@ class C07(Prop):
     assumptions = ["library = lua51 extended with deprecated globals and a deprecated parameter"]
 
 
+class C05(Prop):
+    id = "C05"
+    coq_targets = ["Properties/C05.vo", "Corr/C05.vo"]
+    props_file = "Properties/C05.v"
+    harness_cmd = "c05"
+    n = {"quick": 1600, "thorough": 40000}
+    search_seeds = 3
+    search_n = 3000
+    classes = {"S3": 1, "S4": 2, "S5": 4}
+    bits = {4: "`.`/`:` misuse reported although the call style matches the definition, or not reported although it differs",
+            8: "parameter-count problem reported for a number of arguments inside the allowed range, or not reported outside it",
+            16: "type problem reported for an argument without a definite type, or whose type / string content the declared parameter accepts",
+            32: "the content taken from a string token differs from the tokenizer's"}
+    rule = ("one call per case: generated libraries (functions at global, nested and struct-method positions; 0-4 parameters "
+            "with every mix of required / optional / vararg / constant-list / display types, ordered and unordered) and "
+            "functions picked from lua51 / lua52 / luau; call style right or wrong; 0..total+2 arguments or string-call / "
+            "table-call sugar; arguments: every literal kind and spelling (decimal/hex/exponent numbers, ' \" [[ ]] [=[ ]=] "
+            "strings incl. first-newline and escapes, constants of the declared list), variables, calls, `...`, parentheses, "
+            "unary and binary operators; diagnostics of the real lint parsed back into problems; non-trivial = every case; "
+            "distinct = distinct (definition, source)")
+    trusted_base = [
+        "modelled: get_argument_type, PassedArgumentType and the body of visit_function_call after the definition was found (Std/CallCheck.v); "
+        "finding the definition is C06's model; the definition is taken from StandardLibrary::find_global",
+        "message parsing in harness/src/c05.rs (`requires E parameters, P passed`, `received `T``, argument index by label range); "
+        "a diagnostic that cannot be parsed back breaks the correspondence bit",
+        "the syntax tree is taken from full_moon (astdump.rs); string content oracle: full_moon's StringLiteral.literal",
+        "Lua 5.1 expression fragment (no Luau if-expressions / interpolated strings / type assertions)",
+    ]
+    assumptions = ["a string token's denoted content is the tokenizer's literal when it has no escapes"]
+
+
 class C06(Prop):
     id = "C06"
     coq_targets = ["Properties/C06.vo", "Corr/C06.vo"]
@@ -258,4 +289,4 @@ from .c16 import C16  # noqa: E402
 from .c18 import C18  # noqa: E402
 from .c20 import C20  # noqa: E402
 
-ALL = {c.id: c for c in [C01, C02, C03, C06, C07, C08, C09, C10, C13, C14, C15, C16, C17, C18, C19, C20]}
+ALL = {c.id: c for c in [C01, C02, C03, C05, C06, C07, C08, C09, C10, C13, C14, C15, C16, C17, C18, C19, C20]}
